@@ -1105,6 +1105,12 @@ def apply_rewrites(text, log, rules, keep_eq=False):
         text = _rule_r23(text, log)
     if 'R21' in rules:
         text = _rule_r21(text, log)
+    if 'R30' in rules:
+        # `X.dedup();` -> `vec_dedup(&mut X);` (prelude seqs: assumed - the result is no longer than the input, nothing else); the tree
+        # does not use dedup: the rule exists so that a change which introduces it fails the obligations it breaks
+        text, n30 = re.subn(r'\b([a-z_][a-z0-9_]*)\s*\.dedup\(\)\s*;', r'vec_dedup(&mut \1);', text)
+        if n30:
+            log.append(('R30', n30))
     if 'R22' in rules:
         # A.into_iter().chain(B.into_iter()).collect()  ->  vec_concat(A, B)   (std contract: A's elements then B's)
         text, n22 = re.subn(r'\b([a-z_][a-z0-9_]*)\s*\.into_iter\(\)\s*\.chain\(\s*([a-z_][a-z0-9_]*)\.into_iter\(\)\s*\)\s*\.collect\(\)', r'vec_concat(\1, \2)', text)
